@@ -8,19 +8,30 @@ single-datagram capacity, of k*MAX_FRAGMENT_SIZE (k <= 4) and of 0, sent alone f
 that loses the first transmissions; (b) random mixes of sizes and retry modes under loss / duplication /
 reordering / latency in both directions, followed by a healed phase.
 
+(c) the liveness composition (Properties/C05.v, theorems 4): joint TIMED schedules of both real endpoints
+(harness/livesim.py over idlesim.Pair) — one unfragmented send_guaranteed from either side over a network that
+loses / delays / duplicates / reorders / injects and heals (in the sender's direction) at a time th; the whole
+private state of both endpoints after every event is compared with Model/LiveNet.v (unit live_pair_run), and
+the theorem's hypotheses (hvalid / hnow) are recomputed in Python and compared with the model's verdict.
+Oracle for (c), implementation only: whenever the schedule is inside the hypotheses and runs past
+max(th, t_send) + max(keep-alive, send interval) + tau + d, the receiver's incoming_messages is exactly
+[(1, payload)]; at every event of an admissible schedule it is [] or that; the sender's RetrySender is done
+only after the delivery.
+
 Oracle (implementation only), evaluated after the healed phase while the connection is open:
   * every guaranteed payload accepted by send was handed to the peer application (at least once);
   * nothing is left in the sender's outgoing queue and no guaranteed message is still pending
     (no size is silently stuck);
   * no send_guaranteed call raised."""
-from harness import lib, netsim, connsim as S
+from harness import lib, netsim, livesim, connsim as S
 
 RULE = ("boundary sweep: every length around 0 / MAX_PAYLOAD_SIZE / k*MAX_FRAGMENT_SIZE per MTU, first transmissions lost; "
         "random sessions with loss/dup/reorder/latency then healed; non-trivial = guaranteed message whose first datagram "
         "(or one of its fragments) was lost and that was delivered after the network healed")
 ASSUMPTIONS = ["fairness: after the faulty phase the network delivers every datagram and both sides keep ticking (healed phase)",
                "clock values are multiples of 1/1024 s"]
-TRUSTED = ["harness/connsim.py + netsim.py (virtual clock, datagram translation)"]
+TRUSTED = ["harness/connsim.py + netsim.py (virtual clock, datagram translation)",
+           "harness/idlesim.py + livesim.py (joint timed schedules; the server sweep applied to one connection)"]
 
 T = S.TICKS
 
@@ -133,6 +144,74 @@ def random_session(run, rng, label, steps):
     return net, diffs, n, cfg
 
 
+LIVE_RULE = ("timed joint schedules: sender ticks <= tau apart, loss/delay before th, every sender datagram from th on shown "
+             "within d, copies/tampered copies/lossy ack direction at all times; grid over side, keep-alive interval, tau, d, "
+             "th, payload length (0, 1, MAX_PAYLOAD_SIZE-1, MAX_PAYLOAD_SIZE); plus schedules that break the hypotheses "
+             "(loss after th); non-trivial = admissible schedule whose first transmission was lost or arrived after a later one")
+
+
+def live_sessions(run, rng, th):
+    """(c): unit live_pair_run + the liveness oracle on the real endpoints"""
+    lcases, limpl, margs = [], [], []
+    n_sessions = 90 if th else 18
+    for n in range(n_sessions):
+        side = n % 2
+        KC = rng.choice([1536, 1536, 600, 3000])
+        KS = rng.choice([1536, 1536, 600, 3000])
+        tau = rng.choice([150, 300, 600])
+        d = rng.choice([0, 90, 300, 900])
+        th_off = rng.choice([0, 600, 3000, 9000, 20000])
+        mp = S.env_for_mtu(1500)[0]
+        S.restore_mtu()
+        plen = rng.choice([0, 1, 40, 300, mp - 1, mp])
+        payload = bytes((7 * i + n) % 251 for i in range(plen))
+        broken = (n % 6 == 5)
+        p = livesim.random_live_session(run, rng, side, KC, KS, tau, d, th_off, payload,
+                                        loss=rng.choice([0.5, 0.9, 1.0]), dup=rng.choice([0, 0.2]),
+                                        junk=rng.choice([0, 0.1]), rloss=rng.choice([0, 0.5, 1.0]),
+                                        post_loss=(0.5 if broken else 0.0))
+        try:
+            now_end = p.times[-1]
+            adm, why = p.admissible(tau, d, p.th)
+            setl = p.settled(tau, d, p.th, now_end)
+            deadline = max(p.th, p.t0) + p.bound
+            label = "live%d" % n
+            case = {"session": label, "side": "client" if side == 0 else "server", "KC": KC, "KS": KS, "tau": tau, "d": d,
+                    "th_off": th_off, "len": plen, "events": len(p.events), "admissible": adm, "why": why}
+            margs.append(p.model_args(tau, d, p.th, now_end))
+            limpl.append([1, 1 if adm else 0, 1 if setl else 0, deadline, p.start, p.obs])
+            lcases.append(case)
+            run.count("live_sessions")
+            run.count("live_admissible" if adm else "live_outside_hypotheses")
+            run.evaluations += len(p.events)
+            expect = [[1, payload]]
+            if adm:
+                shown_first = None
+                for k, inc in enumerate(p.incoming):
+                    if inc not in ([], expect):
+                        run.oracle_violation("receiver-handed-something-else-or-twice",
+                                             dict(case, event=k, incoming=lib.jsonable(inc)[:3]), "liveness composition")
+                        break
+                    if p.done[k] and inc != expect:
+                        run.oracle_violation("success-before-delivery", dict(case, event=k), "liveness composition")
+                        break
+                if setl and now_end > deadline and p.incoming[-1] != expect:
+                    run.oracle_violation("guaranteed-message-not-delivered-within-bound",
+                                         dict(case, now_end=now_end - p.t0, deadline=deadline - p.t0,
+                                              emitted=[r["time"] - p.t0 for r in p.em[p.sender]][:8]), "liveness bound")
+                first = p.em[p.sender][0] if p.em[p.sender] else None
+                if first is not None and (not first["shown"] or (len(p.em[p.sender]) > 1 and p.em[p.sender][1]["shown"]
+                                                                 and first["shown"][0] > p.em[p.sender][1]["shown"][0])):
+                    run.nt(("live", label))
+            if n < 2:
+                run.sample({"unit": "live_pair_run", "case": case, "delivered_at_event":
+                            next((k for k, inc in enumerate(p.incoming) if inc == expect), None)})
+        finally:
+            p.close()
+    replies = run.model.call_many("live_pair_run", margs)
+    run.compare("live_pair_run", lcases, limpl, replies)
+
+
 def run(run):
     rng = run.rng
     th = run.thorough()
@@ -184,4 +263,6 @@ def run(run):
             run.sample({"session": label, "cfg": cfg, "mtu": net.mtu,
                         "guaranteed": [[r["len"], r["retry"]] for r in list(net.sent["client"].values())[:6]]})
     run.compare("conn_run", cases, impl, mod)
+    live_sessions(run, rng, th)
     run.rules.append(RULE)
+    run.rules.append(LIVE_RULE)
